@@ -2,7 +2,7 @@
     Property theorems only, about the per-window methods REGENERATED from the source (Gen/GenScalars.v;
     translation validated by correspondence K5).  [eql] = elementwise equality of rationals. *)
 From Coq Require Import QArith Qabs List Bool String.
-From IV Require Import QL Dist Ecdf QListFacts GenUtils GenScalars RatLS C16_compose C03_proofs C02_proofs C04_proofs C01_proofs C09_proofs RatLS_proofs.
+From IV Require Import QL Dist Ecdf QListFacts GenUtils GenScalars RatLS C16_compose C03_proofs C02_proofs C04_proofs C01_proofs C09_proofs RatLS_proofs IsimipStep4 C09_step4.
 Import ListNotations.
 Open Scope Q_scope.
 
@@ -46,3 +46,28 @@ Theorem C09_cdft_monotone : forall ds em im o h f,
 Proof. exact @cdft_monotone. Qed.
 Print Assumptions C09_cdft_monotone.
 
+
+(** ISIMIP step 4 (hand model Model/IsimipStep4.v, tied to the code by correspondence K16): the randomisation of
+    the values at or beyond a threshold never reorders values, whatever the uniform draws are; the randomised
+    values stay between bound and threshold and the other values are untouched *)
+Theorem C09_isimip_step4_lower_never_reorders : forall lb lt us vals, lb <= lt -> Forall (fun u => 0 <= u /\ u <= 1) us ->
+  (ctrue (map (fun v => Qle_bool v lt) vals) <= List.length us)%nat ->
+  forall i j, (i < List.length vals)%nat -> (j < List.length vals)%nat -> nth i vals 0 < nth j vals 0 ->
+  nth i (step4_lower lb lt us vals) 0 <= nth j (step4_lower lb lt us vals) 0.
+Proof. exact isimip_step4_lower_never_reorders. Qed.
+Print Assumptions C09_isimip_step4_lower_never_reorders.
+
+Theorem C09_isimip_step4_upper_never_reorders : forall ut ub us vals, ut <= ub -> Forall (fun u => 0 <= u /\ u <= 1) us ->
+  (ctrue (map (fun v => Qle_bool ut v) vals) <= List.length us)%nat ->
+  forall i j, (i < List.length vals)%nat -> (j < List.length vals)%nat -> nth i vals 0 < nth j vals 0 ->
+  nth i (step4_upper ut ub us vals) 0 <= nth j (step4_upper ut ub us vals) 0.
+Proof. exact isimip_step4_upper_never_reorders. Qed.
+Print Assumptions C09_isimip_step4_upper_never_reorders.
+
+Theorem C09_isimip_step4_lower_values : forall lb lt us vals, lb <= lt -> Forall (fun u => 0 <= u /\ u <= 1) us ->
+  (ctrue (map (fun v => Qle_bool v lt) vals) <= List.length us)%nat ->
+  forall i, (i < List.length vals)%nat ->
+  (nth i vals 0 <= lt -> lb <= nth i (step4_lower lb lt us vals) 0 /\ nth i (step4_lower lb lt us vals) 0 <= lt) /\
+  (lt < nth i vals 0 -> nth i (step4_lower lb lt us vals) 0 = nth i vals 0).
+Proof. exact isimip_step4_lower_values. Qed.
+Print Assumptions C09_isimip_step4_lower_values.
